@@ -7,7 +7,9 @@ File: 2-of-3, 3 segments, on 3 real storage servers.  Space:
      segment 2, whole file} issued one after another on ONE node object, and every ordered pair
      of those reads issued concurrently;
  (b) share/server damage (missing, corrupt block, corrupt hashes, erroring or disconnecting
-     servers, all servers failing) followed by two further reads on the same node;
+     servers, all servers failing) and placements with the SAME share number on two or three servers
+     (fewer / exactly / more than k distinct numbers obtainable), followed by two further reads on
+     the same node;
  each under every schedule with <= d deviations (incl. firing timers early) and <= f injected
  faults (error before the call / connection loss, on any remote call).
 Oracle: once nothing is pending and all timers have fired, every read() Deferred has fired
@@ -39,6 +41,18 @@ def cases_ct(tier):
     return seq, conc
 
 
+def cases_duplicates():
+    """the same share number on two servers, with fewer / exactly / more than k distinct numbers
+    obtainable: the fetcher's give-up logic must count share NUMBERS, not copies"""
+    out = []
+    for pl in ({"0": [0, 1]}, {"0": [0, 1, 2]}, {"0": [0, 1], "1": [2]}, {"0": [0, 1], "1": [1, 2]}, {"0": [0], "1": [0], "2": [1]}):
+        for d in ({}, {"0:0": "corrupt-block0"}, {"1:0": "missing"}):
+            d = {c: k for c, k in d.items() if c.split(":")[1] in pl and int(c.split(":")[0]) in pl[c.split(":")[1]]}
+            out.append(dict(BASE, placement=pl, damage=d, groups=[[RANGES[3]], [RANGES[0]], [RANGES[2]]]))
+            out.append(dict(BASE, placement=pl, damage=d, groups=[[RANGES[1], RANGES[2]], [RANGES[0]]]))
+    return out
+
+
 def cases_damage():
     out = []
     dmgs = [
@@ -60,7 +74,7 @@ def replay(case):
 
 def run(tier, seed):
     seq, conc = cases_ct(tier)
-    dmg = cases_damage()
+    dmg = cases_damage() + cases_duplicates()
     faults = ["error", "disconnect"]
     # default schedule for everything
     res = common.pmap(lib_imm.explore_chunk, seq + conc + dmg, (seed, 0, 0, None, "C46"))
